@@ -4,6 +4,7 @@ package c14
 
 import (
 	"math"
+	"sort"
 	"strconv"
 	"strings"
 	"time"
@@ -299,6 +300,10 @@ func oracles(r *run.Runner) {
 		}
 		return limited(func() w.Val {
 			ids, err := shape.GetExtendedSpatialIdsOnLine(pointArg(a[0]), pointArg(a[1]), w.AsInt(a[2]), w.AsInt(a[3]))
+			// an oracle answer must be a function of the query: the line's IDs come out of a map in a different order on every call, and
+			// the second evaluator replays a repeated query with the FIRST logged answer; the model uses the line as a set (and picks its
+			// least ID), so the canonical order loses nothing
+			sort.Strings(ids)
 			return w.WithErr(w.Strs(ids), err)
 		})
 	}
